@@ -116,6 +116,10 @@ func genCase(rng *rand.Rand) *caseDesc {
 			s.Dt = i64 - l64
 		default:
 			s.Dt = uint64(rng.Intn(int(c.I)))
+			if rng.Intn(5) == 0 {
+				// idle for (a multiple of) 2^32 ms and a bit: bucket ages must not be computed in 32 bits
+				s.Dt += uint64(1+rng.Intn(3)) << 32
+			}
 		}
 		t += s.Dt
 		switch k := rng.Intn(10); {
